@@ -28,6 +28,8 @@ class Report:
         self.instances.append(dict(rule=rule, key=key, ok=True, detail=detail, where=where))
 
     def bad(self, rule, key, msg, where="", trace=None):
+        if any((not i["ok"]) and i["rule"] == rule and i["key"] == key for i in self.instances):
+            return  # one report per instance key
         self.instances.append(dict(rule=rule, key=key, ok=False, detail=msg, where=where, trace=trace))
 
     def check(self, cond, rule, key, detail="", where="", bad_detail=None):
